@@ -521,16 +521,32 @@ def oracle(c, impl, model):
                         bad("history-not-recent-calls", "window %d, %d stored before: %d after, expected %d = new estimate + the most recent old ones" % (win, stored, nhist.shape[1], exp_cols), k)
                     else:
                         n = exp_cols
-                        ww = win_weights(var, n)
-                        spec, sres = wmean(nhist, ww, lin, circ)
-                        hscale = max(1.0, float(np.max(np.abs(nhist[:lin]))) if lin else 1.0)
-                        ok, sk, worst = vec_close(est, spec, lin, sres, hscale)
-                        if not ok:
-                            phase = "filling" if n < win else "full"
-                            bad("windowed-not-convex-combination:%s:%s" % (var, phase), "method %s, %d stored (window %d): estimate differs from the %s average of the stored estimates by %.3g" % (meth, n, win, {"s": "simple", "w": "weighted", "e": "exponential"}[var], worst), k)
+                        nm = {"s": "simple", "w": "weighted", "e": "exponential"}[var]
+                        phase = "filling" if n < win else "full"
                         cw = np.asarray(impl.get({"s": "smw", "w": "wmw", "e": "emw"}[var] + str(k)), float).reshape(-1)
-                        if cw.size != n or not caseio.close(np.exp(cw), ww, 1e-12, 1e-10):
-                            bad("stale-window-weights:%s" % var, "cached log-weights have %d entries / exp() differs from the closed form for %d stored estimates (sum %.17g)" % (cw.size, n, float(np.exp(cw).sum())), k)
+                        ww = np.exp(cw)
+                        # ---- the weights in use (the cached vector of this variant): one per stored estimate,
+                        #      positive, summing to one, not increasing with age, equal for the simple variant
+                        wok = True
+                        if cw.size != n:
+                            wok = False
+                            bad("stale-window-weights:%s:%s" % (var, phase), "%d cached %s weights for %d stored estimates (window %d)" % (cw.size, nm, n, win), k)
+                        else:
+                            if not np.all(ww > 0) or not np.all(np.isfinite(cw)):
+                                wok = False; bad("window-weights-not-positive:%s" % var, "weights %s" % ww, k)
+                            if abs(float(ww.sum()) - 1.0) > 1e-12 * n:
+                                wok = False; bad("window-weights-sum-not-one:%s:%s" % (var, phase), "%d %s weights sum to %.17g" % (n, nm, float(ww.sum())), k)
+                            if np.any(np.diff(ww) > 1e-15):
+                                wok = False; bad("window-weights-increase-with-age:%s" % var, "weights %s (newest first)" % ww, k)
+                            if var == "s" and not caseio.close(ww, np.full(n, 1.0 / n), 1e-14, 0):
+                                wok = False; bad("window-weights-not-equal:s", "simple weights %s" % ww, k)
+                        # ---- the estimate is that convex combination of the stored estimates
+                        if wok:
+                            spec, sres = wmean(nhist, ww, lin, circ)
+                            hscale = max(1.0, float(np.max(np.abs(nhist[:lin]))) if lin else 1.0)
+                            ok, sk, worst = vec_close(est, spec, lin, sres, hscale)
+                            if not ok:
+                                bad("windowed-not-convex-combination:%s:%s" % (var, phase), "method %s, %d stored (window %d): estimate differs from the %s average of the stored estimates by %.3g" % (meth, n, win, nm, worst), k)
         # post-state as observed
         win, hist = nwin, nhist
         if est_kind and impl.has("meth%d" % k):
@@ -539,6 +555,17 @@ def oracle(c, impl, model):
     if est_kind and toks and impl.has("info_window") and impl.get("info_window") != win:
         v.append(("C17:getInfo-window", "getInfo reports window %s, the buffer %d" % (impl.get("info_window"), win)))
     return v
+
+
+def on_crash(c, info, model):
+    """Abnormal end of the harness: name the API call that was running (last entry= on stderr)."""
+    import re
+    es = re.findall(r"entry=(\S+)", info.get("stderr", ""))
+    entry = es[-1] if es else "unknown"
+    used, wins, shrunk, mx, _ = features(c)
+    return [("C17:%s:%s" % (info["kind"], entry),
+             "implementation ended abnormally (%s, rc=%s) in %s; ops: %s; stderr tail: %s"
+             % (info["kind"], info["rc"], entry, " ".join(ops_of(c))[:300], info.get("stderr", "")[-300:].replace("\n", " | ")))]
 
 
 def histogram(cases):
